@@ -108,8 +108,102 @@ static void task_body(Scen& s, Rng r, tbb::task_group* tg, int depth, bool iso_c
     }
 }
 
+// ---------------------------------------------------------------------------------------------- mode "outer": suspension at the outermost level
+// An application thread E1 calls tbb::task::suspend directly in the functor it passed to task_arena::execute - not inside any task: the
+// suspended stack is the thread's own. Meanwhile its OS thread serves the arena on a coroutine (and is kept busy there by an enqueued task in
+// half of the scenarios). A second application thread E2 waits in the same arena (task_group::wait kept open by a deferred handle), so that
+// E2 - or a worker, when the arena has worker slots - may be the one that takes the resume task and lands on E1's stack. The owner must be
+// recalled: the code after suspend() continues exactly once, after resume(), and on E1's own OS thread (anything else leaves two OS threads
+// on each other's stacks); both execute() calls return.
+struct OuterScen {
+    uint64_t seed = 0; int slots = 2, reserved = 2; bool blocker = false; unsigned resume_delay_us = 0, blocker_hold_us = 0;
+    std::atomic<int> e1_tid{0}, cont_tid{0}, continued{0}, cb_runs{0}, e2_in{0}, blocker_started{0}, blocker_tid{0}, release_blocker{0}, blocker_done{0}, resume_called{0}, resume_returned{0}, e1_returned{0}, e2_returned{0};
+    std::string describe() const {
+        Json j; j.obj(); j.kv("class", "outer"); j.kv("scn_seed", (unsigned long long)seed); j.kv("arena", std::to_string(slots) + "," + std::to_string(reserved)); j.kv("owner_kept_busy_by_an_enqueued_task", blocker);
+        j.kv("resume_delay_us", (long long)resume_delay_us); j.kv("suspending_thread", e1_tid.load()); j.kv("continuing_thread", cont_tid.load()); j.kv("callback_runs", cb_runs.load()); j.kv("continued", continued.load());
+        j.kv("resume_called", resume_called.load()); j.kv("resume_returned", resume_returned.load()); j.kv("thread_that_ran_the_enqueued_task", blocker_tid.load()); j.kv("E1_execute_returned", e1_returned.load()); j.kv("E2_execute_returned", e2_returned.load());
+        j.end_obj(); return j.s;
+    }
+};
+static OuterScen* g_outer = nullptr;
+static int run_outer(Result& R, long cases, bool do_perturb) {
+    std::vector<int> ids = { 80, 81, 82, 30, 31, 58, 50, 52, 54, 40 };
+    Rng top(mix(R.seed, 0x0C20));
+    tbb::global_control gc(tbb::global_control::max_allowed_parallelism, 16);
+    watchdog_start(WatchdogCfg{}, [&](const HangInfo& hi) {
+        OuterScen* s = g_outer;
+        std::string d = "no progress for " + std::to_string(hi.stalled_for) + "s; threads: " + hi.threads.substr(0, 700);
+        if (!hi.quiescent && !hi.spin_stall) { R.inconclusive++; fprintf(stderr, "[c20] inconclusive stall: %s\n", d.c_str()); R.finish_and_exit(4); }
+        std::string what = "execute-not-returned";
+        if (s && s->resume_returned.load() && s->continued.load() == 0) what = "resumed-not-continued";
+        R.violation(std::string("c20.outer.hang.") + (hi.quiescent ? "quiescent." : "spin-stall.") + what, d + "\n" + rings_dump(8).substr(0, 1200), s ? s->describe() : "{}");
+        R.finish_and_exit(3);
+    });
+    for (long k = 0; k < cases; k++) {
+        OuterScen s; s.seed = top.next(); Rng r(s.seed); g_outer = &s;
+        unsigned shape = (unsigned)r.below(4);
+        if (shape == 0) { s.slots = 2; s.reserved = 2; } else if (shape == 1) { s.slots = 3; s.reserved = 3; } else if (shape == 2) { s.slots = 3; s.reserved = 2; } else { s.slots = 4; s.reserved = 2; }
+        s.blocker = r.chance(1, 2); s.resume_delay_us = r.chance(1, 2) ? 0 : (unsigned)r.below(400); s.blocker_hold_us = (unsigned)r.below(600);
+        if (do_perturb) { if (r.chance(1, 4)) perturb().clear(); else perturb_random(r, ids); }
+        tbb::task_arena A(s.slots, s.reserved); A.initialize();
+        tbb::task::suspend_point sp{}; tbb::task_handle* hp = nullptr; std::atomic<int> hp_ready{0};
+        std::thread E2([&] {
+            A.execute([&] {
+                tbb::task_group tg; tbb::task_handle h = tg.defer([] {}); hp = &h; hp_ready.store(1, std::memory_order_release);
+                s.e2_in.store(1, std::memory_order_release);
+                tg.wait();                     // serves the arena (also resume tasks) until main drops the handle
+            });
+            s.e2_returned.store(1, std::memory_order_release);
+        });
+        while (!s.e2_in.load(std::memory_order_acquire)) sched_yield();
+        std::thread E1([&] {
+            A.execute([&] {
+                s.e1_tid.store(gettid_(), std::memory_order_relaxed);
+                tbb::task::suspend([&](tbb::task::suspend_point p) { sp = p; s.cb_runs.fetch_add(1, std::memory_order_release); });
+                // the stack of this application thread: only this thread may be here
+                s.cont_tid.store(gettid_(), std::memory_order_relaxed);
+                if (!s.resume_called.load(std::memory_order_acquire)) { R.violation("c20.outer.continued-before-resume", "the code after suspend() at the outermost level ran before resume() was called", s.describe()); R.finish_and_exit(1); }
+                s.continued.fetch_add(1, std::memory_order_release);
+            });
+            s.e1_returned.store(1, std::memory_order_release);
+        });
+        while (!s.cb_runs.load(std::memory_order_acquire)) sched_yield();
+        if (s.blocker) {
+            // keeps E1's OS thread (now on a coroutine at its outermost level, the only loop here that takes enqueued work) busy
+            A.enqueue([&] { s.blocker_tid.store(gettid_(), std::memory_order_relaxed); s.blocker_started.store(1, std::memory_order_release); while (!s.release_blocker.load(std::memory_order_acquire)) { spin_iters(50); } s.blocker_done.store(1, std::memory_order_release); });
+            while (!s.blocker_started.load(std::memory_order_acquire)) sched_yield();
+        }
+        if (s.resume_delay_us) sleep_us(s.resume_delay_us);
+        s.resume_called.store(1, std::memory_order_release);
+        tbb::task::resume(sp);
+        s.resume_returned.store(1, std::memory_order_release);
+        if (s.blocker) { if (s.blocker_hold_us) sleep_us(s.blocker_hold_us); s.release_blocker.store(1, std::memory_order_release); }
+        // E1's continuation: exactly once, on E1's own OS thread
+        while (!s.continued.load(std::memory_order_acquire)) sched_yield();
+        if (s.cont_tid.load() != s.e1_tid.load()) {
+            R.violation("c20.outer.continued-on-foreign-thread", "code suspended at the outermost level of application thread " + std::to_string(s.e1_tid.load()) + " (directly in its task_arena::execute functor) was continued on OS thread " + std::to_string(s.cont_tid.load()) + ": the owner was not recalled to its stack", s.describe());
+            R.finish_and_exit(1);            // two OS threads sit on each other's stacks now: nothing after this point means anything
+        }
+        while (!s.e1_returned.load(std::memory_order_acquire)) sched_yield();
+        while (!hp_ready.load(std::memory_order_acquire)) sched_yield();
+        *hp = tbb::task_handle();           // closes E2's wait
+        E1.join(); E2.join();
+        if (s.blocker) while (!s.blocker_done.load(std::memory_order_acquire)) sched_yield();      // the enqueued task refers to this scenario object
+        if (s.continued.load() != 1 || s.cb_runs.load() != 1) { R.violation("c20.outer.continued-count", "callback ran " + std::to_string(s.cb_runs.load()) + " times, the suspended code continued " + std::to_string(s.continued.load()) + " times", s.describe()); }
+        R.scenarios++; R.nontrivial++;
+        R.stat("outer_suspensions"); if (s.blocker) { R.stat("outer_owner_busy_with_an_enqueued_task_when_resumed"); if (s.blocker_tid.load() == s.e1_tid.load()) R.stat("outer_enqueued_task_ran_on_the_suspended_threads_coroutine"); }
+        R.signature(mix(mix(0x07, (uint64_t)shape * 2 + s.blocker), (uint64_t)(s.resume_delay_us / 100)));
+        g_outer = nullptr; perturb().clear();
+        progress();
+    }
+    watchdog_stop();
+    R.write();
+    return 0;
+}
+
 int main(int argc, char** argv) {
     Args a = standard_init(argc, argv, "c20");
+    if (result().mode == "outer") return run_outer(result(), a.num("cases", 2000), a.num("perturb", 1) != 0);
     Result& R = result();
     long cases = a.num("cases", 2000);
     bool do_perturb = a.num("perturb", 1) != 0;
